@@ -175,3 +175,398 @@ Proof.
   destruct (off =? 8); [eauto|]. destruct (off =? 12); eauto.
 Qed.
 Print Assumptions word_at_total.
+
+(** ** 2a. Jumps stay inside: [bounded e p] — every jump of every suffix [i :: r] of [p] skips fewer
+    than [length r + e] instructions. [closed] ([e = 1]): a jump lands at most just behind the list;
+    [bounded 0]: every jump lands on an instruction of the list (what bpf_check_classic demands). *)
+Definition jump_ok (e:N) (i:instr) (rest:N) : Prop :=
+  match i with
+  | IJmpIf _ _ jt jf => jt < rest + e /\ jf < rest + e
+  | IJa s => s < rest + e
+  | _ => True
+  end.
+
+Fixpoint bounded (e:N) (p:list instr) : Prop :=
+  match p with
+  | [] => True
+  | i :: r => jump_ok e i (N.of_nat (length r)) /\ bounded e r
+  end.
+
+Notation closed := (bounded 1).
+
+Lemma bounded_app e e' p q :
+  bounded e p -> bounded e' q -> e <= N.of_nat (length q) + e' -> bounded e' (p ++ q).
+Proof.
+  intros Hp Hq Hl. induction p as [|i r IH]; [exact Hq|].
+  cbn [app bounded] in *. destruct Hp as [Hi Hr]. split; [|apply IH; exact Hr].
+  rewrite app_length. destruct i; cbn [jump_ok] in *; lia.
+Qed.
+
+Lemma closed_app p q : closed p -> closed q -> closed (p ++ q).
+Proof. intros Hp Hq. eapply bounded_app; eauto. lia. Qed.
+
+(** a skip computed by [resolve] is a distance to a marker inside the resolved suffix *)
+Lemma dist_le_resolve r : forall l d p,
+  dist l r = Some d -> resolve r = Some p -> d <= N.of_nat (length p).
+Proof.
+  induction r as [|it r IH]; intros l d p Hd Hr; cbn [dist resolve] in Hd, Hr; [discriminate|].
+  destruct it.
+  - destruct (dist l r) as [d'|] eqn:D; [|discriminate]. destruct (resolve r) as [p'|] eqn:R; [|discriminate].
+    cbn [option_map] in Hd, Hr. injection Hd as <-. injection Hr as <-.
+    specialize (IH l d' p' D eq_refl). cbn [length]. lia.
+  - destruct (dist l r) as [d'|] eqn:D; [|discriminate]. destruct (resolve r) as [p'|] eqn:R; [|discriminate].
+    cbn [option_map] in Hd, Hr. injection Hd as <-. injection Hr as <-.
+    specialize (IH l d' p' D eq_refl). cbn [length]. lia.
+  - destruct (dist l r) as [d'|] eqn:D; [|discriminate].
+    destruct (dist tl r) as [dt|]; [|discriminate]. destruct (dist fl r) as [df|]; [|discriminate].
+    destruct (resolve r) as [p'|] eqn:R; [|discriminate].
+    destruct ((dt <=? 255) && (df <=? 255) && negb ((dt =? 0) && (df =? 0))); [|discriminate].
+    cbn [option_map] in Hd. injection Hd as <-. injection Hr as <-.
+    specialize (IH l d' p' D eq_refl). cbn [length]. lia.
+  - destruct (dist l r) as [d'|] eqn:D; [|discriminate].
+    destruct (dist l0 r) as [dl|]; [|discriminate].
+    destruct (resolve r) as [p'|] eqn:R; [|discriminate].
+    cbn [option_map] in Hd. injection Hd as <-. injection Hr as <-.
+    specialize (IH l d' p' D eq_refl). cbn [length]. lia.
+  - destruct (l0 =? l).
+    + injection Hd as <-. lia.
+    + eapply IH; eauto.
+Qed.
+
+Lemma resolve_closed its : forall p, resolve its = Some p -> closed p.
+Proof.
+  induction its as [|it r IH]; intros p H; cbn [resolve] in H.
+  - injection H as <-. exact I.
+  - destruct it.
+    + destruct (resolve r) as [p'|] eqn:R; [|discriminate]. cbn [option_map] in H. injection H as <-.
+      split; [exact I|apply IH; reflexivity].
+    + destruct (resolve r) as [p'|] eqn:R; [|discriminate]. cbn [option_map] in H. injection H as <-.
+      split; [exact I|apply IH; reflexivity].
+    + destruct (dist tl r) as [dt|] eqn:Dt; [|discriminate]. destruct (dist fl r) as [df|] eqn:Df; [|discriminate].
+      destruct (resolve r) as [p'|] eqn:R; [|discriminate].
+      destruct ((dt <=? 255) && (df <=? 255) && negb ((dt =? 0) && (df =? 0))); [|discriminate].
+      injection H as <-.
+      pose proof (dist_le_resolve _ _ _ _ Dt R). pose proof (dist_le_resolve _ _ _ _ Df R).
+      split; [cbn [jump_ok]; lia|apply IH; reflexivity].
+    + destruct (dist l r) as [dl|] eqn:Dl; [|discriminate].
+      destruct (resolve r) as [p'|] eqn:R; [|discriminate]. injection H as <-.
+      pose proof (dist_le_resolve _ _ _ _ Dl R).
+      split; [cbn [jump_ok]; lia|apply IH; reflexivity].
+    + apply IH. exact H.
+Qed.
+
+(** the conditional jumps [resolve] emits fit the 8-bit jt/jf fields *)
+Definition byte_jump (i:instr) : Prop :=
+  match i with IJmpIf _ _ jt jf => jt <= 255 /\ jf <= 255 | _ => True end.
+
+Lemma resolve_bytes its : forall p, resolve its = Some p -> Forall byte_jump p.
+Proof.
+  induction its as [|it r IH]; intros p H; cbn [resolve] in H.
+  - injection H as <-. constructor.
+  - destruct it.
+    + destruct (resolve r) as [p'|] eqn:R; [|discriminate]. cbn [option_map] in H. injection H as <-.
+      constructor; [exact I|apply IH; reflexivity].
+    + destruct (resolve r) as [p'|] eqn:R; [|discriminate]. cbn [option_map] in H. injection H as <-.
+      constructor; [exact I|apply IH; reflexivity].
+    + destruct (dist tl r) as [dt|] eqn:Dt; [|discriminate]. destruct (dist fl r) as [df|] eqn:Df; [|discriminate].
+      destruct (resolve r) as [p'|] eqn:R; [|discriminate].
+      destruct (N.leb_spec dt 255) as [L1|L1]; [|discriminate].
+      destruct (N.leb_spec df 255) as [L2|L2]; [|discriminate].
+      destruct (negb ((dt =? 0) && (df =? 0))); [|discriminate]. cbn [andb] in H.
+      injection H as <-. constructor; [split; assumption|apply IH; reflexivity].
+    + destruct (dist l r) as [dl|] eqn:Dl; [|discriminate].
+      destruct (resolve r) as [p'|] eqn:R; [|discriminate]. injection H as <-.
+      constructor; [exact I|apply IH; reflexivity].
+    + apply IH. exact H.
+Qed.
+
+(** ** 2b. Loads and returns are those of the label-level program: the assembler invents none *)
+Definition src (i:instr) : option item :=
+  match i with ILd o => Some (TLd o) | IRet v => Some (TRet v) | _ => None end.
+Definition keep (it:item) : Prop := match it with TLd _ | TRet _ => True | _ => False end.
+
+Lemma src_keep i it : src i = Some it -> keep it.
+Proof. destruct i; cbn [src]; intros H; try discriminate; injection H as <-; exact I. Qed.
+
+Lemma resolve_in its : forall p i it, resolve its = Some p -> In i p -> src i = Some it -> In it its.
+Proof.
+  induction its as [|x r IH]; intros p i it H Hi Hs; cbn [resolve] in H.
+  - injection H as <-. destruct Hi.
+  - destruct x.
+    + destruct (resolve r) as [p'|] eqn:R; [|discriminate]. cbn [option_map] in H. injection H as <-.
+      destruct Hi as [<-|Hi]; [cbn [src] in Hs; injection Hs as <-; left; reflexivity|right; eapply IH; eauto].
+    + destruct (resolve r) as [p'|] eqn:R; [|discriminate]. cbn [option_map] in H. injection H as <-.
+      destruct Hi as [<-|Hi]; [cbn [src] in Hs; injection Hs as <-; left; reflexivity|right; eapply IH; eauto].
+    + destruct (dist tl r) as [dt|]; [|discriminate]. destruct (dist fl r) as [df|]; [|discriminate].
+      destruct (resolve r) as [p'|] eqn:R; [|discriminate].
+      destruct ((dt <=? 255) && (df <=? 255) && negb ((dt =? 0) && (df =? 0))); [|discriminate].
+      injection H as <-. destruct Hi as [<-|Hi]; [discriminate|right; eapply IH; eauto].
+    + destruct (dist l r) as [dl|]; [|discriminate].
+      destruct (resolve r) as [p'|] eqn:R; [|discriminate]. injection H as <-.
+      destruct Hi as [<-|Hi]; [discriminate|right; eapply IH; eauto].
+    + right. eapply IH; eauto.
+Qed.
+
+Lemma first_real_in r : forall it, first_real r = Some it -> In it r.
+Proof.
+  induction r as [|x r IH]; intros it H; cbn [first_real] in H; [discriminate|].
+  destruct x; try (injection H as <-; left; reflexivity). right. apply IH. exact H.
+Qed.
+
+Lemma at_label_in l r : forall it, at_label l r = Some it -> In it r.
+Proof.
+  induction r as [|x r IH]; intros it H; cbn [at_label] in H; [discriminate|].
+  destruct x; try (right; apply IH; exact H).
+  destruct (l0 =? l); right; [apply first_real_in|apply IH]; exact H.
+Qed.
+
+(** a bridge that is a load or a return is a copy of an instruction further on *)
+Lemma tramp_keep l r : keep (tramp l r) -> In (tramp l r) r.
+Proof.
+  unfold tramp. destruct (at_label l r) as [[]|] eqn:E; cbn [keep]; try contradiction.
+  intros _. eapply at_label_in; eauto.
+Qed.
+
+Lemma fix_jump_keep c k tl fl r f it :
+  keep it -> In it (fst (fix_jump c k tl fl r f)) -> In it r.
+Proof.
+  intros Hk. unfold fix_jump.
+  destruct (far (dist tl r) || is255 (dist tl r) && far (dist fl r)),
+           (far (dist fl r) || is255 (dist fl r) && far (dist tl r)); cbn [fst In]; intros H.
+  all: repeat (destruct H as [<-|H]; [try (exact (False_ind _ Hk)); apply tramp_keep; exact Hk|]); exact H.
+Qed.
+
+Lemma relax_keep its : forall f it, keep it -> In it (fst (relax its f)) -> In it its.
+Proof.
+  induction its as [|x r IH]; intros f it Hk H; cbn [relax] in H; [exact H|].
+  specialize (IH f it Hk). destruct (relax r f) as [r' f'] eqn:E. cbn [fst] in IH.
+  destruct x; cbn [fst In] in H.
+  - destruct H as [<-|H]; [left; reflexivity|right; auto].
+  - destruct H as [<-|H]; [left; reflexivity|right; auto].
+  - right. apply IH. eapply fix_jump_keep; eauto.
+  - destruct H as [<-|H]; [left; reflexivity|right; auto].
+  - destruct H as [<-|H]; [left; reflexivity|right; auto].
+Qed.
+
+(** ** Program.Assemble: the output is closed, its jumps fit a byte, its loads and returns are the input's *)
+Lemma assemble_resolve its f p : assemble its f = Ok p -> resolve (fst (relax its f)) = Some p.
+Proof.
+  unfold assemble. destruct (negb (jumps_resolvable its)); [discriminate|].
+  destruct (check_jumps (fst (relax its f))); [discriminate|].
+  destruct (resolve (fst (relax its f))) as [p'|]; [|discriminate]. intros H; injection H as ->. reflexivity.
+Qed.
+
+Lemma assemble_closed its f p : assemble its f = Ok p -> closed p.
+Proof. intros H. eapply resolve_closed. eapply assemble_resolve. exact H. Qed.
+
+Lemma assemble_bytes its f p : assemble its f = Ok p -> Forall byte_jump p.
+Proof. intros H. eapply resolve_bytes. eapply assemble_resolve. exact H. Qed.
+
+Lemma assemble_in its f p i it : assemble its f = Ok p -> In i p -> src i = Some it -> In it its.
+Proof.
+  intros H Hi Hs. apply assemble_resolve in H.
+  eapply relax_keep; [eapply src_keep; exact Hs|]. eapply resolve_in; eauto.
+Qed.
+
+(** ** 2c. The label-level code of a group: loads are aligned and inside seccomp_data, the only return is the group's *)
+Definition ld_good (off:N) : Prop := off < 64 /\ N.land off 3 = 0.
+
+Definition item_inv (w:N) (it:item) : Prop :=
+  match it with TLd off => ld_good off | TRet v => v = w | _ => True end.
+
+Lemma ld_off_good i b : i <= 5 -> ld_good (ld_off i b).
+Proof.
+  intros H. destruct (le5_cases i H) as [->|[->|[->|[->|[->| ->]]]]]; destruct b; split; reflexivity.
+Qed.
+
+Lemma ld_good_0 : ld_good 0. Proof. split; reflexivity. Qed.
+Lemma ld_good_4 : ld_good 4. Proof. split; reflexivity. Qed.
+
+Lemma gen_cond_inv le w c mt nm n : cnd_ok c -> Forall (item_inv w) (fst (gen_cond le c mt nm n)).
+Proof.
+  intros [Ha _].
+  pose proof (ld_off_good (c_arg c) le Ha) as H1. pose proof (ld_off_good (c_arg c) (negb le) Ha) as H2.
+  unfold gen_cond, jmp_if_true. destruct (c_op c); cbn [fst app];
+  repeat (apply Forall_cons; [first [exact I|exact H1|exact H2]|]); apply Forall_nil.
+Qed.
+
+Lemma gen_conds_inv le w cs : forall action nm n,
+  Forall cnd_ok cs -> Forall (item_inv w) (fst (gen_conds le cs action nm n)).
+Proof.
+  induction cs as [|c rest IH]; intros action nm n H; cbn [gen_conds]; [constructor|].
+  inversion H as [|? ? Hc Hr]; subst.
+  pose proof (gen_cond_inv le w c (match rest with [] => action | _ => n end) nm (n+1) Hc) as F.
+  destruct (gen_cond le c _ nm (n+1)) as [code n1]. cbn [fst] in F.
+  specialize (IH action nm n1 Hr). destruct (gen_conds le rest action nm n1) as [more n2]. cbn [fst] in *.
+  apply Forall_app. split; [exact F|]. constructor; [exact I|exact IH].
+Qed.
+
+Lemma gen_list_inv le w cs action n : list_ok cs -> Forall (item_inv w) (fst (gen_list le cs action n)).
+Proof.
+  intros [_ H]. unfold gen_list.
+  pose proof (gen_conds_inv le w cs action n (n+1) H) as F.
+  destruct (gen_conds le cs action n (n+1)) as [code n1]. cbn [fst] in *.
+  apply Forall_app. split; [exact F|]. constructor; [exact I|constructor].
+Qed.
+
+Lemma gen_lists_inv le w ls : forall action n,
+  Forall list_ok ls -> Forall (item_inv w) (fst (gen_lists le ls action n)).
+Proof.
+  induction ls as [|cs rest IH]; intros action n H; cbn [gen_lists]; [constructor|].
+  inversion H as [|? ? Hc Hr]; subst.
+  pose proof (gen_list_inv le w cs action n Hc) as F.
+  destruct (gen_list le cs action n) as [code n1]. cbn [fst] in F.
+  specialize (IH action n1 Hr). destruct (gen_lists le rest action n1) as [more n2]. cbn [fst] in *.
+  apply Forall_app. split; assumption.
+Qed.
+
+Lemma gen_ent_inv le w e action n : entry_ok e -> Forall (item_inv w) (fst (gen_ent le e action n)).
+Proof.
+  destruct e as [num|num ls]; cbn [gen_ent entry_ok]; intros H.
+  - unfold jmp_if_true. cbn [fst]. repeat constructor.
+  - destruct H as [_ H]. pose proof (gen_lists_inv le w ls action (n+2) H) as F.
+    destruct (gen_lists le ls action (n+2)) as [code n1]. cbn [fst] in *.
+    unfold jmp_if_true. cbn [app]. constructor; [exact I|]. constructor; [exact I|].
+    apply Forall_app. split; [exact F|].
+    constructor; [exact ld_good_0|]. constructor; [exact I|constructor].
+Qed.
+
+Lemma gen_ents_inv le w es : forall action n,
+  Forall entry_ok es -> Forall (item_inv w) (fst (gen_ents le es action n)).
+Proof.
+  induction es as [|e rest IH]; intros action n H; cbn [gen_ents]; [constructor|].
+  inversion H as [|? ? He Hr]; subst.
+  pose proof (gen_ent_inv le w e action n He) as F.
+  destruct (gen_ent le e action n) as [code n1]. cbn [fst] in F.
+  specialize (IH action n1 Hr). destruct (gen_ents le rest action n1) as [more n2]. cbn [fst] in *.
+  apply Forall_app. split; assumption.
+Qed.
+
+Lemma gen_group_inv le es w : Forall entry_ok es -> Forall (item_inv w) (fst (gen_group le es w)).
+Proof.
+  intros H. unfold gen_group. pose proof (gen_ents_inv le w es 2 3 H) as F.
+  destruct (gen_ents le es 2 3) as [code n1]. cbn [fst] in *.
+  apply Forall_app. split; [exact F|].
+  constructor; [exact I|]. constructor; [exact I|]. constructor; [reflexivity|]. constructor; [exact I|constructor].
+Qed.
+
+(** ** 2d. Compiled groups *)
+Definition instr_inv (w:N) (i:instr) : Prop :=
+  match i with ILd off => ld_good off | IRet v => v = w | _ => True end.
+
+Lemma compile_group_facts le k ai g p :
+  compile_group le k ai g = Ok p ->
+  closed p /\ Forall byte_jump p /\ Forall (instr_inv (ret_word k (g_action g))) p.
+Proof.
+  unfold compile_group. intros H.
+  assert (Hmain: forall es, to_syscalls ai g = Ok es ->
+            (let '(its, n) := gen_group le es (ret_word k (g_action g)) in assemble its n) = Ok p ->
+            closed p /\ Forall byte_jump p /\ Forall (instr_inv (ret_word k (g_action g))) p).
+  { intros es Hes Ha.
+    destruct (to_syscalls_spec ai {| ev_nr := 0; ev_arch := 0; ev_ip := 0; ev_args := [] |} g es Hes) as [Hok _].
+    pose proof (gen_group_inv le es (ret_word k (g_action g)) Hok) as GI.
+    destruct (gen_group le es (ret_word k (g_action g))) as [its n]. cbn [fst] in GI.
+    split; [eapply assemble_closed; exact Ha|]. split; [eapply assemble_bytes; exact Ha|].
+    rewrite Forall_forall in GI. apply Forall_forall. intros i Hi.
+    destruct i as [off| | |v]; cbn [instr_inv]; try exact I.
+    - apply (GI (TLd off)). eapply assemble_in; eauto.
+    - apply (GI (TRet v)). eapply assemble_in; eauto. }
+  destruct (g_names g) as [|n0 ns].
+  - destruct (g_nwc g) as [|w0 ws].
+    + injection H as <-. split; [exact I|]. split; constructor.
+    + destruct (to_syscalls ai g) as [es|e] eqn:T; [|discriminate]. eapply Hmain; eauto.
+  - destruct (to_syscalls ai g) as [es|e] eqn:T; [|discriminate]. eapply Hmain; eauto.
+Qed.
+
+Definition body_inv (k:consts) (gs:list group) (i:instr) : Prop :=
+  match i with
+  | ILd off => ld_good off
+  | IRet v => exists g, In g gs /\ v = ret_word k (g_action g)
+  | _ => True
+  end.
+
+Lemma body_inv_mono k gs gs' i : (forall g, In g gs -> In g gs') -> body_inv k gs i -> body_inv k gs' i.
+Proof. intros Hs. destruct i; cbn [body_inv]; auto. intros (g & Hg & ->). eauto. Qed.
+
+Lemma compile_groups_facts le k ai gs : forall body,
+  compile_groups le k ai gs = Ok body ->
+  closed body /\ Forall byte_jump body /\ Forall (body_inv k gs) body.
+Proof.
+  induction gs as [|g rest IH]; intros body H; cbn [compile_groups] in H.
+  - injection H as <-. split; [exact I|]. split; constructor.
+  - destruct (compile_group le k ai g) as [p|e] eqn:G; [|discriminate].
+    destruct (compile_groups le k ai rest) as [q|e] eqn:R; [|discriminate].
+    injection H as <-.
+    destruct (compile_group_facts _ _ _ _ _ G) as (C1 & B1 & I1).
+    destruct (IH q eq_refl) as (C2 & B2 & I2).
+    split; [apply closed_app; assumption|]. split; [apply Forall_app; split; assumption|].
+    apply Forall_app. split.
+    + eapply Forall_impl; [|exact I1]. intros i Hi. destruct i; cbn [instr_inv body_inv] in *; auto.
+      exists g. split; [left; reflexivity|exact Hi].
+    + eapply Forall_impl; [|exact I2]. intros i. apply body_inv_mono. intros g0 Hg0. right. exact Hg0.
+Qed.
+
+(** ** 2e. The whole program *)
+Lemma compile_shape le k ai pol p :
+  compile le k ai pol = Ok p ->
+  exists body,
+    compile_groups le k ai (p_groups pol) = Ok body /\
+    p = prologue ai (N.of_nat (length (x32_filter k ai) + length body + 1))
+        ++ [ILd 0] ++ x32_filter k ai ++ body ++ [IRet (ret_word k (p_default pol))].
+Proof.
+  unfold compile. intros H.
+  destruct (negb (is_named k (p_default pol))); [discriminate|].
+  destruct (p_groups pol) as [|g0 gs0] eqn:Eg; [discriminate|]. rewrite <- Eg in *. clear Eg g0 gs0.
+  destruct (compile_groups le k ai (p_groups pol)) as [body|e] eqn:B; [|discriminate].
+  injection H as <-. exists body. split; reflexivity.
+Qed.
+
+Lemma prologue_bounded ai jumpN : bounded (jumpN + 1) (prologue ai jumpN).
+Proof.
+  pose proof (N.mod_le jumpN 256 ltac:(discriminate)).
+  pose proof (N.mod_le jumpN two32 ltac:(discriminate)).
+  unfold prologue. destruct (jumpN <=? 255); cbn [bounded jump_ok length N.of_nat]; repeat split; lia.
+Qed.
+
+Lemma prologue_bytes ai jumpN : Forall byte_jump (prologue ai jumpN).
+Proof.
+  pose proof (N.mod_lt jumpN 256 ltac:(discriminate)).
+  unfold prologue. destruct (jumpN <=? 255); repeat constructor; cbn [byte_jump]; lia.
+Qed.
+
+Lemma x32_closed k ai : closed (x32_filter k ai).
+Proof. unfold x32_filter. destruct (ai_id ai =? k_x86_64_id k); cbn [bounded jump_ok length N.of_nat]; repeat split; lia. Qed.
+
+Definition load_good (i:instr) : Prop := match i with ILd off => ld_good off | _ => True end.
+
+Lemma compiled_structure le k ai pol p :
+  compile le k ai pol = Ok p ->
+  bounded 0 p /\ Forall load_good p /\ Forall byte_jump p /\
+  exists q d, p = q ++ [IRet d].
+Proof.
+  intros H. destruct (compile_shape _ _ _ _ _ H) as (body & B & ->).
+  destruct (compile_groups_facts _ _ _ _ _ B) as (C & By & Inv).
+  set (d := ret_word k (p_default pol)).
+  set (x32 := x32_filter k ai).
+  set (jumpN := N.of_nat (length x32 + length body + 1)).
+  split; [|split; [|split]].
+  - apply (bounded_app (jumpN + 1) 0).
+    + apply prologue_bounded.
+    + apply (bounded_app 0 0); [cbn; auto|  |lia].
+      apply (bounded_app 1 0); [apply x32_closed| |rewrite app_length; cbn [length]; lia].
+      apply (bounded_app 1 0); [exact C|cbn; auto|cbn [length]; lia].
+    + unfold jumpN. rewrite !app_length. cbn [length]. lia.
+  - apply Forall_app. split.
+    { unfold prologue. destruct (jumpN <=? 255); repeat constructor; exact ld_good_4. }
+    apply Forall_app. split; [repeat constructor; exact ld_good_0|].
+    apply Forall_app. split.
+    { unfold x32, x32_filter. destruct (ai_id ai =? k_x86_64_id k); repeat constructor. }
+    apply Forall_app. split; [|repeat constructor].
+    eapply Forall_impl; [|exact Inv]. intros i. destruct i; cbn [body_inv load_good]; auto.
+  - apply Forall_app. split; [apply prologue_bytes|].
+    apply Forall_app. split; [repeat constructor|].
+    apply Forall_app. split.
+    { unfold x32, x32_filter. destruct (ai_id ai =? k_x86_64_id k); repeat constructor; cbn [byte_jump]; lia. }
+    apply Forall_app. split; [exact By|repeat constructor].
+  - exists (prologue ai jumpN ++ [ILd 0] ++ x32 ++ body), d. rewrite <- !app_assoc. reflexivity.
+Qed.
